@@ -52,6 +52,10 @@ LITERAL_OK = {
         (r"^fx::rates::ccy::Ccy::try_new$", "behind the 3-byte guard"),
         (r"^<fx::rates::ccy::Ccy as std::clone::Clone>::clone$", "copy"),
     ],
+    "fx::rates::FXRates": [
+        (r"^fx::rates::FXRates::try_new$", "currency list, quotes and rate array are built together from the validated quotes (C09 R09.1)"),
+        (r"^<fx::rates::FXRates as std::clone::Clone>::clone$", "field-wise clone"),
+    ],
     "fx::rates::fxpair::FXPair": [
         (r"^fx::rates::fxpair::FXPair::try_new$", "behind the distinct-currency guard"),
         (r"^<fx::rates::fxpair::FXPair as std::clone::Clone>::clone$", "copy"),
